@@ -174,7 +174,20 @@ func (l AbstractListSchema[ItemType]) ValidateCompatibility(typeOrData any) erro
 				itemsValueField.Interface()),
 		}
 	}
-	// Note: Not currently bothering with validating min and max fields
+	// Must have size overlap.
+	minField := listSchemaField.FieldByName("MinValue")
+	maxField := listSchemaField.FieldByName("MaxValue")
+	if minField.IsValid() && maxField.IsValid() {
+		minValue, minOK := minField.Interface().(*int64)
+		maxValue, maxOK := maxField.Interface().(*int64)
+		if minOK && maxOK &&
+			((l.MaxValue != nil && minValue != nil && (*minValue) > (*l.MaxValue)) ||
+				(l.MinValue != nil && maxValue != nil && (*maxValue) < (*l.MinValue))) {
+			return &ConstraintError{
+				Message: "mutually exclusive lengths between list schemas",
+			}
+		}
+	}
 	// Validate the list sub-type
 	return l.ItemsValue.ValidateCompatibility(itemType)
 }
